@@ -128,6 +128,46 @@ RESULTS = {
  "C19-3B": ("C19", "C19/panic/httpserver.getVersion", "quick", True, ""),
  "C20-3A": ("C20", "C20/expansion/query-arg", "quick", True, ""),
  "C20-3B": ("C20", "C20/expansion/req-header-absent", "quick", True, ""),
+ "C01-4A": ("C01", "C01/misrouted/want-site-via-exact/got-exact-host/prefix", "quick", True, ""),
+ "C01-4B": ("C01", "C01/misrouted/ipv6-literal-host", "quick", True, ""),
+ "C02-4A": ("C02", "C02/listing-names-hidden", "quick", True, ""),
+ "C02-4B": ("C02", "C02/sibling-not-accepted", "quick", True, ""),
+ "C03-4A": ("C03", "C03/disclosed/basicauth/htpasswd-of-another-root", "quick", False, "new phase: three sites with different roots, the same relative htpasswd file name and the same user with different passwords"),
+ "C03-4B": ("C03", "C03/disclosed/basicauth (basicauth-file + ext)", "quick", True, ""),
+ "C04-4A": ("C04", "C04/req-xff", "quick", False, "X-Forwarded-For named in the request's Connection header (any letter case) when the request carries the field"),
+ "C04-4B": ("C04", "C04/resp-body, C04/resp-trailers/unannounced", "quick", False, "block shape with `timeout 400ms` (connect timeout) and slow response streams (>= 0.7 s) on a quarter of its cases"),
+ "C05-4A": ("C05", "C05/no-host-although-one-available/least_conn", "quick", True, ""),
+ "C05-4B": ("C14 (C05 does not drive active health checks)", "C14/fails-lost, C14/not-down-with-max_fails-unexpired", "quick", True, ""),
+ "C06-4A": ("C06", "C06/handshake-refused-within-site-settings", "quick", True, ""),
+ "C06-4B": ("C06", "C06/client-ca-after-reload/*", "quick", False, "new rotation phase: the client CA bundle of a site is replaced under the same file name and the unchanged configuration reloaded, four times"),
+ "C07-4A": ("C07", "C07/bind-address-not-served-after-reload", "quick", False, "new bind history: reloads that add, keep and move bind addresses on one port; every configured (address, site) must answer with the new marker, removed addresses must refuse"),
+ "C07-4B": ("C07", "C07/request-dropped", "quick", False, "the history sites got an access log each (a request still in flight when its instance is replaced writes its line after that instance's log was closed)"),
+ "C08-4A": ("C08", "C08/event-hooks-left-by-failed-load/sigusr1", "quick", False, "SIGUSR1 reloads whose Casketfile loader itself fails, with a hook registered"),
+ "C08-4B": ("C08", "C08/listeners-leaked-on-failed-load/restart", "quick", False, "failure kind with QUIC switched on and the UDP side of a port taken while its TCP side is free (also exposed a panic on the unchanged tree, fixed)"),
+ "C09-4A": ("C09", "C09/list-order/changed-by-loads, C09/list-order/duplicate/*", "quick", False, "the directive list of the http server type is compared before and after the successful loads of the precedence phase, then the order checks run again"),
+ "C09-4B": ("C09", "C09/block-order-differs/header", "quick", False, "new block-order phase: pairs of different server blocks loaded in both file orders, every battery request compared per site"),
+ "C10-4A": ("C10", "C10/roundtrip/inline", "quick", True, ""),
+ "C10-4B": ("C10", "C10/acyclic-import-rejected", "quick", True, ""),
+ "C11-4A": ("C11", "C11/panic/errors-rotate_*", "quick", False, "vocabulary scraping also collects named string constants (the rotate_* keywords are consts used in case clauses)"),
+ "C11-4B": ("C11", "C11/panic/on-*", "quick", True, ""),
+ "C12-4A": ("C12", "C12/superfluous-writeheader/written+err", "quick", True, ""),
+ "C12-4B": ("C12", "C12/error-return/status-changed/error-return", "quick", False, "scripted behaviours that send a 103 interim response before the real one (this also exposed three wrappers of the unchanged tree that mistook the interim response for the final one; fixed)"),
+ "C13-4A": ("C13", "C13/params-env-entry", "quick", True, ""),
+ "C13-4B": ("C13", "C13/reply-status", "quick", True, ""),
+ "C14-4A": ("C14", "C14/not-down-with-max_fails-unexpired", "quick", False, "down-ness rounds whose failures take a second to show (backend stalls, then resets) and a check 800 ms into the fail_timeout of the failure just recorded"),
+ "C14-4B": ("C14", "C14/client-cancel-counted-as-failure", "quick", False, "new scenario: body-less requests parked in a healthy backend are cancelled by their clients; the backend's fail count stays 0 and the next request is forwarded to it"),
+ "C15-4A": ("C15", "C15/redirect-default-port-not-omitted", "quick", True, ""),
+ "C15-4B": ("C15", "C15/redirect-site-not-permanent-redirect", "quick", False, "site addresses written with a path (one site, two sites of one host)"),
+ "C16-4A": ("C16", "C16/final-shutdown-of-replaced-instance", "quick", True, ""),
+ "C16-4B": ("C16", "C16/process-shutdown-callbacks-not-exactly-once", "quick", True, ""),
+ "C17-4A": ("C17", "C17/limit-of-wrong-scope", "quick", True, ""),
+ "C17-4B": ("C17", "C17/listener-setting-not-strictest/header_limit", "quick", True, ""),
+ "C18-4A": ("C18", "C18/undecodable, C18/body-differs", "quick", False, "write pattern with an implicit header, no Content-Length and several writes"),
+ "C18-4B": ("C18", "C18/unlabelled-gzip", "quick", True, ""),
+ "C19-4A": ("C03 (C19 does not overlap authenticated requests)", "C03/disclosed/basicauth/concurrent-login", "quick", True, ""),
+ "C19-4B": ("C19", "C19/panic/httpserver.(*replacer).getSubstitution", "quick", False, "the end-to-end site also answers as catch-all, host names with a trailing dot, {label3}..{label5}"),
+ "C20-4A": ("C20", "C20/status-mismatch", "quick", False, "handler outcomes that send a 103 interim response first"),
+ "C20-4B": ("C20", "C20/line-missing, C20/line-garbled", "quick", False, "a third of the logs use rotate_disable and every round reloads its own configuration half way"),
 }
 
 VERIFY = {}
@@ -155,7 +195,15 @@ def main():
             continue
         dst = "/verif/seeded/%s" % sid
         os.makedirs(dst, exist_ok=True)
-        shutil.copy(src + "/mutant-%s.diff" % letter, dst + "/patch.diff")
+        rebased = os.path.exists(dst + "/patch.as-delivered.diff")  # patch.diff was rebased by hand onto later fixes: keep it
+        if not rebased:
+            shutil.copy(src + "/mutant-%s.diff" % letter, dst + "/patch.diff")
+        old_note = None
+        if os.path.exists(dst + "/meta.json"):
+            try:
+                old_note = json.load(open(dst + "/meta.json")).get("note")
+            except Exception:
+                pass
         demos = glob.glob(src + "/demo_%s*" % letter.lower()) + glob.glob(src + "/demo-%s*" % letter)
         for d in demos:
             if os.path.isdir(d):
@@ -180,6 +228,8 @@ def main():
                             "strengthening_done": strengthened,
                             "how": "tools/trymutant.sh seeded/%s/patch.diff %s (scratch copy of /repo with the patch applied, ./check ... quick, exit 1 with the key above)" % (sid, prop)},
         }
+        if old_note:
+            meta_out["note"] = old_note
         json.dump(meta_out, open(dst + "/meta.json", "w"), indent=1)
         print("saved", sid)
 
